@@ -33,9 +33,12 @@ func errorCodeBytes(e *errT) (out []byte, panicked bool) {
 // emitC17Paths reports error [e] through the four paths of a real connection and writes one line per path.
 func emitC17Paths(c *runCfg, idp *int, e *errT) {
 	st := stmtT{id: 1, ret: "err", rerr: e}
-	cfg := cfgT{limit: 4096, auth: "none", term: "none", parse: []parseEntry{{query: []byte("perr"), err: e}, {query: []byte("herr"), stmts: []stmtT{st}}}}
+	// ... and behind a row the handler had to abandon (its second value cannot be encoded for the declared type)
+	rowst := stmtT{id: 2, cols: textCols(2), prog: []opT{{kind: "row", vals: []valT{tv("fine"), tv("fine")}}, {kind: "row", vals: []valT{tv("a"), {kind: "unenc"}}}}, ret: "err", rerr: e}
+	cfg := cfgT{limit: 4096, auth: "none", term: "none", parse: []parseEntry{{query: []byte("perr"), err: e}, {query: []byte("herr"), stmts: []stmtT{st}}, {query: []byte("rowerr"), stmts: []stmtT{rowst}}}}
 	raw := cat(stdStartup, mQuery([]byte("perr")), mParse(nil, []byte("perr"), 0), mSync(),
-		mParse(nil, []byte("herr"), 0), mBind(nil, nil, nil, nil, nil), mExecute(nil, 0), mSync(), mQuery([]byte("herr")), mTerminate())
+		mParse(nil, []byte("herr"), 0), mBind(nil, nil, nil, nil, nil), mExecute(nil, 0), mSync(), mQuery([]byte("herr")),
+		mParse(nil, []byte("rowerr"), 0), mBind(nil, nil, nil, nil, nil), mExecute(nil, 0), mSync(), mQuery([]byte("rowerr")), mTerminate())
 	o := runSession(flatCase(0, "path", cfg, raw, nil))
 	var found [][]byte
 	for b := o.out; len(b) >= 5; {
@@ -48,9 +51,9 @@ func emitC17Paths(c *runCfg, idp *int, e *errT) {
 		}
 		b = b[1+l:]
 	}
-	for k, path := range []string{"path_simple_parse", "path_extended_parse", "path_execute", "path_simple_statement"} {
+	for k, path := range []string{"path_simple_parse", "path_extended_parse", "path_execute", "path_simple_statement", "path_execute_abandoned_row", "path_simple_abandoned_row"} {
 		var out []byte
-		if k < len(found) && len(found) == 4 {
+		if k < len(found) && len(found) == 6 {
 			out = cat(found[k], []byte{'Z', 0, 0, 0, 5, 'I'})
 		}
 		c.out.line(sx("c17", *idp, path, sx("err", e.sx()), sx("out", out), sx("panic", o.panicv != "")))
@@ -160,6 +163,15 @@ func runC17(c *runCfg) error {
 	emit("corpus", &errT{kind: "constraint", a: []byte("pk"), inner: base("x")})
 	for _, l := range []int{0, 1, 255, 256, 65535, 65536, 16777215, 16777216, 2147483647, -1, -2147483648} {
 		emit("corpus", &errT{kind: "source", a: []byte("f.go"), line: l, b: []byte("fn"), inner: base("line")})
+	}
+	// long decoration texts: every field arrives as set, whatever its length (identifier-length limits of a real
+	// PostgreSQL do not apply to what a handler sets)
+	for _, n := range []int{62, 63, 64, 65, 100, 128, 255, 256, 1024, 5000} {
+		long := []byte(strings.Repeat("c", n-1) + "Z")
+		emit("long_texts", &errT{kind: "constraint", a: long, inner: base("x")})
+		emit("long_texts", &errT{kind: "constraint", a: []byte("outer_" + string(long)), inner: &errT{kind: "constraint", a: long, inner: base("nested")}})
+		emit("long_texts", &errT{kind: "hint", a: long, inner: &errT{kind: "detail", a: long, inner: base(string(long))}})
+		emit("long_texts", &errT{kind: "source", a: long, line: n, b: long, inner: base("x")})
 	}
 	// exhaustive: every sequence of <= D decorators over a 7-letter alphabet (each with a fixed value pair)
 	type dk struct {
